@@ -477,6 +477,8 @@ pub fn run(o: &Opts) -> i32 {
                 gen.push(DefEntry { name: "yttrum".into(), doc: None, category: None, def: Rc::new(Def::Substance { symbol: Some("Yq".into()), properties: vec![mkprop("molar_mass", "amount", "1 mol", "mass", "7 kg")] }) });
                 gen.push(unit("aaformula", "Zq2Yq")); gen.push(unit("zzformula", "Zq3")); gen.push(unit("aaelement", "3 Yq"));
             }
+            // an identifier in an exponent, defined under a name that sorts after its user
+            gen.push(unit("aexp", "2^zzexp m")); gen.push(unit("zzexp", "3")); gen.push(unit("aexp2", "(3 m)^(zzexp - 1)"));
             // a name that is both prefix + unit and the plural of another unit (`ks` = k + s, not the plural of the unit k)
             gen.push(DefEntry { name: "s".into(), def: Rc::new(Def::BaseUnit { long_name: None }), doc: None, category: None });
             gen.push(mkp("k", "1000", false)); gen.push(unit("k", "5 m")); gen.push(unit("aab", "3 ks")); gen.push(unit("zab", "3 ks"));
